@@ -114,6 +114,27 @@ def closing : HPc → Option Req
   | .wantSub r => some r
   | _ => none
 
+@[simp] theorem registered_wantAcc {w m p e n} : registered (.wantAcc w m p e n) = none := rfl
+@[simp] theorem registered_relAcc {w m p e n} : registered (.relAcc w m p e n) = none := rfl
+@[simp] theorem closing_wantAcc {w m p e n} : closing (.wantAcc w m p e n) = none := rfl
+@[simp] theorem closing_relAcc {w m p e n} : closing (.relAcc w m p e n) = none := rfl
+@[simp] theorem registered_afterCall {w m p e n} : registered (afterCall w m p e n) = none := by
+  unfold afterCall; split <;> simp [registered, actScope]
+@[simp] theorem closing_afterCall {w m p e n} : closing (afterCall w m p e n) = none := by
+  unfold afterCall; split <;> rfl
+@[simp] theorem registered_afterStart {cfg r} : registered (afterStart cfg r) = none := by
+  cases r with
+  | rw w m p e => by_cases hk : cfg.rw w m p = .calls <;> simp [afterStart, hk, registered, actScope]
+  | _ => rfl
+theorem closing_afterStart {cfg r r'} (h : closing (afterStart cfg r) = some r') : r = r' := by
+  cases r with
+  | rw w m p e => by_cases hk : cfg.rw w m p = .calls <;> simp [afterStart, hk, closing] at h
+  | _ => simpa [afterStart, closing] using h
+@[simp] theorem closing_afterStart_iff {cfg r r'} :
+    closing (afterStart cfg r) = some r' ↔ (r = r' ∧ afterStart cfg r = .wantSub r) := by
+  cases r with
+  | rw w m p e => by_cases hk : cfg.rw w m p = .calls <;> simp [afterStart, hk, closing]
+  | _ => simp [afterStart, closing]
 @[simp] theorem registered_idle : registered .idle = none := rfl
 @[simp] theorem registered_start {r} : registered (.start r) = none := rfl
 @[simp] theorem registered_wantSub {r} : registered (.wantSub r) = none := rfl
@@ -496,7 +517,7 @@ theorem lossInv_step (cfg : Cfg) (σ σ' : State) (a : Act) (hI : LossInv cfg σ
   unfold step at hs
   split at hs
   · exact lossInv_stepH cfg σ σ' _ hI hs
-  · exact lossInv_stepU cfg σ σ' _ _ hI hs
+  · exact lossInv_stepU cfg σ σ' _ _ hI (stepUG_some hs)
 
 theorem lossInv_reach (cfg : Cfg) (hs us cache) (σ : State) (h : Reach cfg (init hs us cache) σ) : LossInv cfg σ := by
   induction h with
